@@ -90,8 +90,15 @@ Verdict propFsg(Choices &c, Ctx &ctx) {
   int start = (int)c.range(0, nstate - 1);
   int fin = c.coin(15) ? start : (int)c.range(0, nstate - 1);
   float lw = (float[]){1.0f, 0.5f, 6.5f, 9.5f}[c.weighted({4, 2, 2, 2})];
-  static const char *WORDS[] = {"a", "b", "c", "d", "e"};
-  int nw = (int)c.range(1, 5);
+  static const char *PLAIN[] = {"a", "b", "c", "d", "e"};
+  // spellings that differ only in letter case are different words (the FSG text format and the
+  // word table are case-sensitive); a third of the cases draw their vocabulary from such a pool
+  static const char *MIXED[] = {"a", "A", "b", "B", "aB"};
+  uint32_t nwRaw = c.raw(); // one choice, decoded as before for the word count (replay files stay valid)
+  int nw = 1 + (int)(nwRaw % 5);
+  bool mixedCase = (nwRaw / 5) % 3 == 2;
+  const char **WORDS = mixedCase ? MIXED : PLAIN;
+  if (mixedCase && nw < 2) nw = 2;
   // the "dictionary": which words have numbered alternates
   std::map<std::string, std::vector<std::string>> alts;
   if (c.coin(70)) alts["b"] = {"b(2)", "b(3)"};
@@ -352,6 +359,7 @@ Verdict propFsg(Choices &c, Ctx &ctx) {
           if (b.to == a.from) nullCycle = true;
         }
   }
+  ctx.labelIf(mixedCase, "vocabulary:case-variants");
   ctx.labelIf(hasDup, "duplicate-arcs");
   ctx.labelIf(nullChain, "null-chain");
   ctx.labelIf(nullCycle, "null-cycle");
